@@ -200,4 +200,33 @@ def read (ext : Bool) (input : List Nat) : Result :=
     stepsLoop ext (a.rest.length + 1) inc a [.initProgram inc]
   else { calls := [], err := some a.line }
 
+/-! #### reading step by step: `accept`, then `do parse(Incremental) while (more())` (as Model/AspifIn.lean) -/
+
+def parseInc (ext inc : Bool) (a : AS) : List Call × Except Nat AS :=
+  let r := step ext a
+  match r.2 with
+  | .error l => (.beginStep :: r.1, .error l)
+  | .ok a1 =>
+    let m := more a1.skipWs
+    if m.1 && !inc then (.beginStep :: r.1 ++ [.endStep], .error m.2.line)
+    else (.beginStep :: r.1 ++ [.endStep], .ok m.2)
+
+def incLoop (ext : Bool) : Nat → Bool → AS → List Call → Result
+  | 0, _, _, acc => { calls := acc, err := some 0 }
+  | f + 1, inc, a, acc =>
+    let p := parseInc ext inc a
+    match p.2 with
+    | .error l => { calls := acc ++ p.1, err := some l }
+    | .ok a1 =>
+      let m := more a1
+      if m.1 then incLoop ext f inc m.2 (acc ++ p.1) else { calls := acc ++ p.1, err := none }
+
+def readInc (ext : Bool) (input : List Nat) : Result :=
+  let a := AS.init input
+  let n := a.peek
+  let inc := n == 57
+  if BufferedStream.isDigit n && (!inc || ext) then
+    incLoop ext (a.rest.length + 1) inc a [.initProgram inc]
+  else { calls := [], err := some a.line }
+
 end PotasscoVerif.SmodelsIn
